@@ -18,6 +18,7 @@ LEVELS = {
     "C17": "other",
     "C07": "other",
     "C09": "other",
+    "C15": "other",
 }
 EXPLAIN = {}
 TRUSTED = [
@@ -49,6 +50,8 @@ PROP_ASSUMPTIONS = {
     "C11": ["the window bound is a paper lemma over the proved per-call contracts (DESIGN.md C11), not machine-checked; the gap task's timing is not decided"],
     "C13": ["about 150 composite views (schema/params/status dictionaries, OpenTherm views) are not under contract; they only have the bounded native sweep views_answer_after_a_mutated_packet_native",
             "histories are not quantified over: contracts are per stored message / per call"],
+    "C15": ["only the association step (Child.set_parent / _get_parent / Parent._add_child) and Zone.__init__ are under contract; the schema validators (voluptuous), re-loading a schema into a fresh gateway and whole packet histories are not decided",
+            "Evohome.get_htg_zone / get_dhw_zone are contracts: the zone of that index of that system, created if need be"],
     "C14": ["MultiZone._handle_msg routing of array payloads to zones is not decided"],
     "C16": ["the gateway-level snapshot -> restore -> snapshot fixpoint is not decided; only the storage form, the filter and expiry are"],
     "C17": ["zlib compress/decompress are inverse (A12); the decode loop is unrolled for at most 3 days x 3 switchpoints"],
